@@ -34,7 +34,22 @@ def _mk(own):
     seen = []
 
     def on_getattr(ex, v, name, st, fr, node):
-        if not (isinstance(node, ast.Attribute) and isinstance(node.ctx, ast.Load) and is_ext_value(v.t)):
+        if not (isinstance(node, ast.Attribute) and isinstance(node.ctx, ast.Load)):
+            return
+        t = v.t
+        if z3.is_app(t) and t.decl().name().startswith('v_attr_') and t.num_args() == 1 and is_ext_value(t.arg(0)):
+            # attribute access ON the value of a field that is None for an empty extension body (x.server_share.group)
+            fname = t.decl().name()[len('v_attr_'):]
+            e_ = t.arg(0)
+            msgs = _msg_terms(e_)
+            if any((ty, fname) in NONE_FIELDS for ty in _ext_types_of(e_)) and \
+                    not (msgs and all(any(o in str(m) for o in own) for m in msgs)):
+                seen.append(src(node))
+                ex.oblige(st, 'C08:received-extension-field-not-None-at-attribute-access:%s' % site(
+                    fr, node, lambda n: isinstance(n, ast.Attribute) and src(n) == src(node), src(node)),
+                    z3.Implies(e_ != v_none, z3.Or(t != v_none, v_truthy(t))), kind='m2')
+            return
+        if not is_ext_value(v.t):
             return
         if not any((t, name) in NONE_FIELDS for t in _ext_types_of(v.t)):
             return
@@ -53,6 +68,67 @@ def _mk(own):
     def check(api):
         api.oblige(api.entry, 'executed', True)
     return on_getattr, check, seen
+
+
+def _sgc_facts(get_ch, tls13):
+    """setup: the ClientHello this function receives is the one _serverGetClientHello yielded; its exit facts
+    (task _serverGetClientHello/peer-controlled-dereferences, obligations C08:full-exit#*:ClientHello-extension-*) hold.
+    `tls13`: the function runs only when TLS 1.3 was negotiated, which happens only for a hello that offers it in
+    supported_versions (task _serverGetClientHello/version-negotiation, TLS13-only-via-supported_versions)."""
+    from contracts.m2_server import EXIT_FACTS, GETEXT, v_int, V_IN, tup
+
+    def setup(ex, st, fr):
+        ch = get_ch(ex, st, fr)
+        if ch is None:
+            return
+        ch = to_val(ch)
+
+        def ext_of_(t_):
+            return GETEXT(attr_t('getExtension', ch), v_int(z3.IntVal(int(t_))))
+        ver = ext_of_(43)
+        offers13 = z3.And(ver != v_none, V_IN(tup(3, 4), attr_t('versions', ver)))
+        if tls13:
+            st.assume(offers13)
+        for t_, fld, cond in EXIT_FACTS:
+            e_ = ext_of_(t_)
+            f_ = attr_t(fld, e_)
+            goal = z3.Or(e_ == v_none, f_ != v_none, v_truthy(f_))
+            st.assume(z3.Implies(offers13, goal) if cond else goal)
+    return setup
+
+
+def _param(name):
+    return lambda ex, st, fr: st.env.get(name)
+
+
+def _self_attr(name):
+    def g(ex, st, fr):
+        outs = ex.getattr_(st.env['self'], name, st, fr)
+        return outs[0].val if outs and outs[0].kind == 'normal' else None
+    return g
+
+
+SETUPS = {
+    '_handshakeServerAsyncHelper': None,           # obtains the hello from _serverGetClientHello itself: see hook below
+    '_serverTLS13Handshake': _sgc_facts(_param('clientHello'), True),
+    '_pickServerKeyExchangeSig': _sgc_facts(_param('clientHello'), False),
+    '_serverCertKeyExchange': _sgc_facts(_param('clientHello'), False),
+    '_serverSRPKeyExchange': _sgc_facts(_param('clientHello'), False),
+    'AECDHKeyExchange.processClientKeyExchange': _sgc_facts(_self_attr('clientHello'), False),
+    'AECDHKeyExchange.makeServerKeyExchange': _sgc_facts(_self_attr('clientHello'), False),
+    'ADHKeyExchange.makeServerKeyExchange': _sgc_facts(_self_attr('clientHello'), False),
+}
+
+
+def h_sgc_result(ex, recv, args, kwargs, st, fr, node):
+    """_serverGetClientHello(...) inside _handshakeServerAsyncHelper: item 0 of the yielded tuple is a ClientHello
+    with the exit facts"""
+    from contracts.m2_server import V_GETITEM, v_int
+    r = fresh_opaque('sgc_result')
+    ch = VOpaque(V_GETITEM(r.t, v_int(z3.IntVal(0))))
+    _sgc_facts(lambda ex_, st_, fr_: ch, False)(ex, st, fr)
+    ex.havoc_call('_serverGetClientHello', st)
+    return [Outcome('normal', st, r)]
 
 
 PURE = {'getExtension', 'len', 'isinstance', 'getattr', 'toRepr', 'getHash', 'getPadding', 'decode', '_getPRFParams',
@@ -77,6 +153,36 @@ TASKS = [
     ('_handle_pha', TRL + '_handle_pha', ()),
 ]
 
+#: exit facts of _clientGetServerHello about the ServerHello it yields (proved by its task below, assumed by the helper)
+CLIENT_EXIT_FACTS = [(11, 'formats')]
+
+
+def h_cgsh_result(ex, recv, args, kwargs, st, fr, node):
+    from contracts.m2_server import GETEXT, v_int
+    sh = fresh_opaque('serverHello')
+    for t_, fld in CLIENT_EXIT_FACTS:
+        e_ = GETEXT(attr_t('getExtension', sh.t), v_int(z3.IntVal(t_)))
+        f_ = attr_t(fld, e_)
+        st.assume(z3.Or(e_ == v_none, f_ != v_none, v_truthy(f_)))
+    st.assume(v_truthy(sh.t))
+    ex.havoc_call('_clientGetServerHello', st)
+    return [Outcome('normal', st, sh)]
+
+
+def _mk_client_exit_check(inner_check, yields):
+    def check(api):
+        from contracts.m2_server import GETEXT, v_int, _ext_objects_truthy
+        inner_check(api)
+        api.oblige(api.entry, 'cover:ServerHello-yielded', len(yields) >= 1)
+        for j, (st, val) in enumerate(yields, 1):
+            for t_, fld in CLIENT_EXIT_FACTS:
+                e_ = GETEXT(attr_t('getExtension', to_val(val)), v_int(z3.IntVal(t_)))
+                f_ = attr_t(fld, e_)
+                api.oblige(st, 'C08:exit#%d:ServerHello-extension-%d.%s-is-not-None' % (j, t_, fld),
+                           z3.Implies(_ext_objects_truthy(st, e_), z3.Or(e_ == v_none, f_ != v_none, v_truthy(f_))))
+    return check
+
+
 for _label, _q, _own in TASKS:
     try:
         from pyvc import source
@@ -84,12 +190,27 @@ for _label, _q, _own in TASKS:
     except Exception:
         continue
     _og, _ck, _seen = _mk(_own)
-    _spec = M2Spec(hooks={'_sendError': h_sendError}, pure=PURE)
+    _hooks = {'_sendError': h_sendError}
+    if _label == '_handshakeServerAsyncHelper':
+        _hooks['_serverGetClientHello'] = h_sgc_result
+    if _label == '_handshakeClientAsyncHelper':
+        _hooks['_clientGetServerHello'] = h_cgsh_result
+    _spec = M2Spec(hooks=_hooks, pure=PURE)
     _spec.on_getattr = _og
-    m2xtask('%s/received-extension-list-fields' % _label, ('C08',), _q, _spec, check=_ck,
-            opts={'ground_feasible': True},
+    if _label == '_clientGetServerHello':
+        _yields = []
+
+        def _on_yield(ex, val, st, fr, ynode, _y=_yields):
+            if isinstance(ynode.value, ast.Name) and ynode.value.id == 'serverHello':
+                _y.append((st.fork(), val))
+        _spec.on_yield = _on_yield
+        _ck = _mk_client_exit_check(_ck, _yields)
+    m2xtask('%s/received-extension-list-fields' % _label, ('C08',), _q, _spec, check=_ck, setup=SETUPS.get(_label),
+            opts={'ground_feasible': True, 'comprehension_facts': True, 'keep_comprehension_obligations': True},
             doc='every iteration / `in` search / subscript / len() of a list field of an extension taken from a peer message is '
                 'dominated by a test of that field (the field is None for an empty extension body)')
 
 REG.note('C08', 'trusted', 'm2_ext_none: which extension fields can be None is read off the real classes (empty-body parse); '
                            'getExtension is a pure lookup; an extension of a message built by this endpoint is never empty-bodied')
+REG.xchecks.append({'prop': 'C08', 'module': 'specs.empty_ext', 'name': 'server_malformed_extension_bodies', 'function': TC + '_serverGetClientHello'})
+REG.xchecks.append({'prop': 'C08', 'module': 'specs.empty_ext', 'name': 'client_malformed_server_hello_extension_bodies', 'function': TC + '_clientGetServerHello'})
